@@ -309,12 +309,16 @@ TRANSPARENT = [
     r"^std::option::Option::<T>::as_ref$", r"^std::option::Option::<T>::as_mut$",
     r"^std::option::Option::<&T>::cloned$", r"^std::option::Option::<&T>::copied$",
     r"^std::vec::Vec::<T, A>::as_slice$", r"^std::vec::Vec::<T, A>::as_mut_slice$",
-    r"^std::slice::<impl \[T\]>::to_vec$", r"^std::borrow::ToOwned::to_owned$",
+    r"^(std|core|alloc)::slice::<impl \[T\]>::to_vec$", r"^std::borrow::ToOwned::to_owned$",
     r"^<.* as std::borrow::ToOwned>::to_owned$",
     r"^std::boxed::Box::<T>::new$", r"^std::convert::identity$",
     r"^<.* as std::iter::IntoIterator>::into_iter$", r"^std::iter::IntoIterator::into_iter$",
-    r"^std::slice::<impl \[T\]>::iter$", r"^std::slice::<impl \[T\]>::iter_mut$",
+    r"^(std|core)::slice::<impl \[T\]>::iter$", r"^(std|core)::slice::<impl \[T\]>::iter_mut$",
+    r"^std::collections::BTreeMap::<K, V, A>::iter$", r"^std::collections::BTreeMap::<K, V, A>::iter_mut$",
+    r"^std::array::<impl .*>::iter$",
     r"^std::option::Option::<T>::take$",
+    r"^std::result::Result::<T, E>::map_err$", r"^std::option::Option::<T>::ok_or$",
+    r"^std::option::Option::<T>::ok_or_else$",
 ]
 _TRANSPARENT_RE = [re.compile(p) for p in TRANSPARENT]
 
@@ -385,6 +389,18 @@ class Prov:
         return t
 
     def _field(self, t, owner, f, strip):
+        if strip and owner.split("::<")[0] in ("std::boxed::Box", "std::ptr::Unique", "std::ptr::NonNull"):
+            return t
+        if strip and t[0] == "enext" and owner == "std::option::Option::Some" and f == "0":
+            return ("epair", t[1])
+        if strip and t[0] == "epair" and owner == "(tuple)":
+            return ("index", t[1]) if f == "0" else ("elem", t[1])
+        if strip and t[0] == "next" and owner == "std::option::Option::Some" and f == "0":
+            if t[1][0] == "zip":
+                return ("zpair", t[1][1], t[1][2])
+            return ("elem", t[1])
+        if strip and t[0] == "zpair" and owner == "(tuple)":
+            return ("elem", t[1]) if f == "0" else ("elem", t[2])
         # field of a known aggregate -> component
         if t[0] == "agg":
             kind, names, ops = t[1], t[2], t[3]
@@ -392,6 +408,10 @@ class Prov:
                 return ops[names.index(f)]
             if f.isdigit() and int(f) < len(ops) and not names:
                 return ops[int(f)]
+        if strip and owner.endswith("std::ops::ControlFlow::Continue") and f == "0":
+            return t
+        if strip and owner.endswith("std::ops::ControlFlow::Break") and f == "0":
+            return ("err", t)
         if strip and t[0] == "call":
             name = t[1]
             # `x?` : Continue(v) of Try::branch(x) -> x ;  Break(r) -> ('err', x)
@@ -459,6 +479,22 @@ class Prov:
         args = tuple(self.operand(a, strip) for a in t["args"])
         if strip and is_transparent(name) and args:
             return args[0]
+        if strip and args:
+            if re.search(r"Iterator>::enumerate$|^std::iter::Iterator::enumerate$", name):
+                return ("enum", args[0])
+            if re.search(r"Iterator>::zip$|^std::iter::Iterator::zip$", name) and len(args) == 2:
+                return ("zip", args[0], args[1])
+            if re.search(r"Iterator>::next$|^std::iter::Iterator::next$", name):
+                if args[0][0] == "enum":
+                    return ("enext", args[0][1])
+                return ("next", args[0])
+        if not args:
+            # constructor-like call: distinct call sites are distinct objects
+            d = t.get("dest")
+            tag = None
+            if d is not None and not d["p"]:
+                tag = self.b.local_name(d["l"]) or "_%d" % d["l"]
+            return ("call", name, args, t.get("self_ty"), tag)
         return ("call", name, args, t.get("self_ty"))
 
     def _rvalue(self, rv, strip):
@@ -532,7 +568,13 @@ def show(t, depth=0):
     if k == "constd":
         return str(t[2])
     if k == "call":
+        if len(t) > 4 and t[4]:
+            return "%s()@%s" % (short(t[1]), t[4])
         return "%s(%s)" % (short(t[1]), ", ".join(show(a, depth + 1) for a in t[2]))
+    if k in ("elem", "index", "enum", "next", "enext", "epair"):
+        return "%s(%s)" % (k, show(t[1], depth + 1))
+    if k in ("zip", "zpair"):
+        return "%s(%s, %s)" % (k, show(t[1], depth + 1), show(t[2], depth + 1))
     if k == "bin":
         return "(%s %s %s)" % (show(t[2], depth + 1), t[1], show(t[3], depth + 1))
     if k == "un":
